@@ -15,7 +15,7 @@ Not decided: exactly-once over all push/pop sequences.
 import re
 
 from facts import short_name
-from kinds import (comparisons, k1_callers, result_blocks, bool_payload_edges)
+from kinds import (rel, comparisons, k1_callers, result_blocks, bool_payload_edges)
 
 CRATES = ["astria_composer.lib"]
 BF = "astria_composer::executor::bundle_factory::"
@@ -51,7 +51,7 @@ def self_assigns(body):
 
 def g1(prog, rep):
     body = prog.main_body(BF + "SizedBundle::try_push")
-    cm = [c for c in comparisons(body) if c.op == "Gt" and c.b == "self.max_size"]
+    cm = rel(body, "Gt", r".", r"^self\.max_size$")
     rep.floor("G1", len(cm), 2, "size comparisons in SizedBundle::try_push")
     push = [c for c in body.calls if c.matches(r"alloc::vec::Vec::<T, A>::push$")
             and body.root(c.args[0]) == "self.buffer"]
@@ -150,8 +150,7 @@ def g3(prog, rep):
     fl = [c for c in body.calls if c.is_(BF + "SizedBundle::flush")]
     rep.floor("G3", len(tp), 2, "SizedBundle::try_push calls in BundleFactory::try_push")
     rep.floor("G3", len(pb), 1, "finished.push_back")
-    cap = [c for c in comparisons(body) if c.op == "Ge" and "len(self.finished)" in c.a
-           and c.b == "self.finished_queue_capacity"]
+    cap = rel(body, "Ge", r"len\(self\.finished\)", r"^self\.finished_queue_capacity$")
     first = min(tp, key=lambda c: c.bb) if tp else None
     for p in pb:
         rep.check(bool(cap) and body.must_pass_edges(set(cap[0].false_edges), p.bb), "G3",
